@@ -23,3 +23,12 @@ Theorem c07_happens_before : forall e, iter_env e -> forall progs, wf_progs prog
   chk_C07_hb (c_labels (exec e (init progs) sched)) = true.
 Proof. exact iter_C07_hb. Qed.
 Print Assumptions c07_happens_before.
+
+(** the mutual-exclusion scan of the label stream (the first half of [check_prop 7], which judges the
+    crate's label streams) never objects to the model *)
+From OCI.proofs Require Import IterMutexScan.
+Theorem c07_label_stream_scan : forall e, iter_env e -> forall progs, wf_progs progs -> forall sched,
+  nowrap (c_labels (exec e (init progs) sched)) ->
+  chk_C07_mutex (c_labels (exec e (init progs) sched)) = true.
+Proof. exact iter_C07_mutex_scan. Qed.
+Print Assumptions c07_label_stream_scan.
